@@ -121,11 +121,25 @@ Definition wf_violation (v : violation) : bool :=
   list_eqb String.eqb (map fst v) (map fst violation_fields) && forallb enum_field_ok v.
 
 (* ---------- quirks ---------- *)
+(* true = do what the source does (read from the generated layer), false = what the property demands *)
 Record pquirks := {
-  q_par_crossfile_lost : bool;      (* the parent finalizes its own rule instances, which saw no file *)
-  q_worker_swallows_errors : bool   (* an exception in a task becomes an empty result *)
+  q_par_crossfile_lost : bool;          (* parent finalize: follow the source (evidence gathered in the parent or not) *)
+  q_parent_evidence_raw_path : bool;    (* which files the parent's evidence loop visits: follow the source's exclusion test *)
+  q_worker_swallows_errors : bool       (* an exception in a task: follow the handlers found in the source *)
 }.
-Definition ideal : pquirks := {| q_par_crossfile_lost := false; q_worker_swallows_errors := false |}.
+Definition ideal : pquirks :=
+  {| q_par_crossfile_lost := false; q_parent_evidence_raw_path := false; q_worker_swallows_errors := false |}.
+
+(* The parent loses the cross-file findings iff it finalizes its own rule instances without having fed
+   them (Gen: parent_collects_evidence is false when lint_files_parallel goes straight from the worker
+   phase to _finalize_rules). *)
+Definition crossfile_lost (q : pquirks) : bool := q_par_crossfile_lost q && negb parent_collects_evidence.
+
+(* The parent's evidence loop skips a file on its own exclusion test.  When that test is the one lint_file
+   uses, skipping is harmless (such a file yields no evidence anywhere); when it is decided on a different
+   path expression (Gen: parent_exclusion_like_lint_file = false) the loop may skip files that lint_file
+   processes. *)
+Definition parent_restricts (q : pquirks) : bool := q_parent_evidence_raw_path q && negb parent_exclusion_like_lint_file.
 
 (* The errors lint_file raises by design are the ones _safe_check_rule re-raises (check_reraises: the
    ValueError of an invalid configuration value).  They surface from a parallel run iff both the worker
@@ -142,6 +156,7 @@ Section Orch.
   Variable perfile : file -> option (list violation).
   Variable collect : file -> evidence.
   Variable report : list evidence -> list violation.
+  Variable parent_sees : file -> bool.   (* the exclusion / ignore test of the parent's evidence loop lets the file through *)
 
   (* lint_files: every file in order in one process, then finalize of every rule *)
   Definition seq_run (files : list file) : option (list violation) :=
@@ -169,8 +184,11 @@ Section Orch.
   Definition below_threshold (mw : option nat) (cpu : nat) (files : list file) : bool :=
     cmp_nat par_threshold_cmp (List.length files) (effective_workers mw cpu * par_threshold_factor).
 
+  Definition parent_evidence_files (q : pquirks) (files : list file) : list file :=
+    if parent_restricts q then filter parent_sees files else files.
+
   Definition parent_finalize (q : pquirks) (files : list file) : list violation :=
-    if q_par_crossfile_lost q then report [] else report (map collect files).
+    if crossfile_lost q then report [] else report (map collect (parent_evidence_files q files)).
 
   (* lint_files_parallel(files, max_workers=mw) on a machine with `cpu` cores *)
   Definition par_run (q : pquirks) (mw : option nat) (cpu : nat) (sched : list nat) (files : list file)
